@@ -54,28 +54,24 @@ def enum_table(ctx):
     if _enum:
         return _enum
     txt = open(os.path.join(LIB, 'intel-ipsec-mb.h')).read()
-    names = set(re.findall(r'\b(IMB_(?:CIPHER|AUTH|DIR|ORDER|SGL|STATUS|ERR|ARCH)_[A-Z0-9_]+)\b', txt))
-    names = sorted(n for n in names if not n.endswith('_'))
+    names = set()
+    for body in re.findall(r'typedef\s+enum\s*\{(.*?)\}\s*\w+\s*;', txt, re.S):
+        body = re.sub(r'/\*.*?\*/', '', body, flags=re.S)
+        for ent in body.split(','):
+            m = re.match(r'\s*(IMB_[A-Z0-9_]+)\b', ent)
+            if m:
+                names.add(m.group(1))
+    names = sorted(names)
     src = os.path.join(ctx.scratch, 'enums.c')
     with open(src, 'w') as f:
         f.write('#include <stdio.h>\n#include "intel-ipsec-mb.h"\nint main(void){\n')
         for n in names:
-            f.write('#ifndef %s\n printf("%s %%lld\\n", (long long)%s);\n#else\n printf("%s %%lld\\n", (long long)(%s));\n#endif\n' % (n, n, n, n, n))
+            f.write(' printf("%s %%lld\\n", (long long)%s);\n' % (n, n))
         f.write('return 0;}\n')
     exe = os.path.join(ctx.scratch, 'enums.exe')
     rc, o, _, _ = run(['gcc', '-w', '-I' + LIB, '-o', exe, src])
     if rc != 0:
-        # some names are not constants; drop failing ones iteratively is overkill: fall back to regex-free subset
-        bad = set(re.findall(r"'(IMB_\w+)' undeclared", o))
-        names2 = [n for n in names if n not in bad]
-        with open(src, 'w') as f:
-            f.write('#include <stdio.h>\n#include "intel-ipsec-mb.h"\nint main(void){\n')
-            for n in names2:
-                f.write(' printf("%s %%lld\\n", (long long)%s);\n' % (n, n))
-            f.write('return 0;}\n')
-        rc, o, _, _ = run(['gcc', '-w', '-I' + LIB, '-o', exe, src])
-        if rc != 0:
-            raise Inconclusive('enum printer failed: ' + o[-400:])
+        raise Inconclusive('enum printer failed: ' + o[-400:])
     rc, o, _, _ = run([exe])
     for line in o.splitlines():
         p = line.split()
